@@ -109,9 +109,11 @@ let cfg t : string =
   let pend () = match !s.ph with Locking -> "L" | Unlocking -> "U" | Crashed -> "X" | _ -> "-" in
   (* the evaluator's reply to every request (event a <mode>): Response events, no effect on the state *)
   let ans = ref (-2) in
+  let held = ref [] in
   let evals acts =
     let ps = List.filter_map (fun a -> match a with Eval (g, _) -> Some g | _ -> None) acts in
     if !ans >= -1 then List.iter (fun g -> app [Response (g, zs (string_of_int !ans))]) ps;
+    if !ans = -3 then held := !held @ ps;
     let gs = List.map (fun g -> ZA.to_int (zt_of_pos g)) ps in
     String.concat "," (List.map string_of_int (List.sort compare gs)) in
   settle_now ();
@@ -132,9 +134,19 @@ let cfg t : string =
             (if bad then "!" else "") ^ "K:" ^ evals acts
         | "a" ->
             ans := (match next t with
-                    | "none" -> -2 | "nil" -> -1 | "nf" -> 0 | "ok" -> 1 | "warn" -> 2 | "err" -> 3 | "stop" -> 4
+                    | "hold" -> -3 | "none" -> -2 | "nil" -> -1 | "nf" -> 0 | "ok" -> 1 | "warn" -> 2 | "err" -> 3 | "stop" -> 4
                     | "stall" -> 5 | "rewind" -> 6 | m -> failwith ("drv_evalloop: unknown answer mode " ^ m));
             "A"
+        | "af" ->
+            (* late replies: Response events now, whatever the gate is; a module is notified for a bad status (the
+               generator keeps threshold <= status and the incident new) *)
+            let st = (match next t with
+                      | "nf" -> 0 | "ok" -> 1 | "warn" -> 2 | "err" -> 3 | "stop" -> 4 | "stall" -> 5 | "rewind" -> 6
+                      | m -> failwith ("drv_evalloop: unknown answer mode " ^ m)) in
+            let hs = !held in
+            held := [];
+            List.iter (fun g -> app [Response (g, zs (string_of_int st))]) hs;
+            Printf.sprintf "AF:%d:%d" (List.length hs) (if hs <> [] && st >= 2 then 1 else 0)
         | "e" ->
             settle_now ();
             if !s.ph = Unlocking then (app [UnlockOk]; settle_now ());
@@ -147,12 +159,12 @@ let cfg t : string =
             let (s', acts) = step !s (Tick now) in
             s := s';
             "T:" ^ evals acts
-        | ("r" | "rs") as kind ->
+        | ("r" | "rs" | "rp") as kind ->
             (* rs: the storage request of this refresh is not taken within the timeout: refresh_events false = no event *)
             let now = next_z t in
             if kind = "rs" then ignore (next t);
             let pres = next_list t (fun t -> let g = pos_of_string (next t) in let r = next_z t in (g, r)) in
-            let (s', acts) = feed step !s (refresh_events (kind = "r") now pres) in
+            let (s', acts) = feed step !s (refresh_events (kind <> "rs") now pres) in
             s := s';
             if List.mem Panic acts then (stop := true; "PANIC") else "R:" ^ fmt_groups (groups_to_list s'.groups)
         | "ue" ->
